@@ -292,7 +292,7 @@ func Families(tier string, seed int64) []*spec.Program {
 		for i, in := range injs {
 			// reference: the same configuration without the field
 			ref := variant(base, fmt.Sprintf("f_unmap%d_ref", i), "unmappable-ref", "C18")
-			ref.Family = fmt.Sprintf("f_unmap%d", i)
+			ref.Family = ref.ID
 			ref.Config.Types = []string{"Alpha", "Beta", "Gamma"}
 			if in.notime {
 				ref.Config.TimeType = false
